@@ -286,13 +286,33 @@ func sweepStalls(base *vm.Plan, calm *vm.Result) []*vm.Plan {
 			md = op.Lim.MaxDurNs
 		}
 	}
+	// a program that is evaluated again after an abandoned evaluation has two workers alive at once:
+	// who goes first matters, so the stall position is also combined with other orders
+	// (youngest first: 2519 = -1 modulo every n up to 10; and seeded tapes)
+	orders := 1
+	for i := range base.Ops {
+		if base.Ops[i].Has("rerun") {
+			orders = 6
+		}
+	}
 	var out []*vm.Plan
 	for n := 1; n <= calm.Steps+1; n++ {
 		for _, d := range []int64{md - 1, md, md + 1} {
-			q := base.Clone()
-			q.Faults = []sched.Fault{{Step: n, Kind: "stall", D: d}}
-			q.Note = fmt.Sprintf("sweep step %d/%d d=%d", n, calm.Steps+1, d)
-			out = append(out, q)
+			for o := 0; o < orders; o++ {
+				q := base.Clone()
+				q.Faults = []sched.Fault{{Step: n, Kind: "stall", D: d}}
+				q.Note = fmt.Sprintf("sweep step %d/%d d=%d order=%d", n, calm.Steps+1, d, o)
+				switch {
+				case o == 1:
+					q.Tape = make([]uint32, 64)
+					for i := range q.Tape {
+						q.Tape[i] = 2519
+					}
+				case o > 1:
+					q.Tape = randTape(rand.New(rand.NewSource(int64(n)*131+int64(o))), 64)
+				}
+				out = append(out, q)
+			}
 		}
 	}
 	return out
@@ -329,6 +349,25 @@ func genC11Catalogue(r *rand.Rand, run int, tier string) *vm.Plan {
 	p := &vm.Plan{Note: "catalogue"}
 	var b ref.Block
 	lim := &vm.Lim{MaxDurNs: 2e6}
+	if run%20 == 10 {
+		// evaluated twice: the first evaluation (where the sweep's stall may fall) is abandoned at its
+		// deadline, the second one must still reach the fixpoint or say that it did not (D14)
+		v := ref.Var
+		b = ref.Block{
+			Facts: []ref.Pred{{Name: "on"}, {Name: "p", Terms: []ref.Term{ref.Str("a")}}, {Name: "has_access", Terms: []ref.Term{ref.Bool(true)}}},
+			Rules: []ref.Rule{
+				{Head: ref.Pred{Name: "ready"}, Body: []ref.Pred{{Name: "on"}, {Name: "p", Terms: []ref.Term{ref.Str("a")}}}},
+				{Head: ref.Pred{Name: "never"}, Body: []ref.Pred{{Name: "on"}, {Name: "p", Terms: []ref.Term{ref.Str("b")}}}},
+				{Head: ref.Pred{Name: "r", Terms: []ref.Term{v("x")}}, Body: []ref.Pred{{Name: "ready"}, {Name: "p", Terms: []ref.Term{v("x")}}}},
+				{Head: ref.Pred{Name: "time", Terms: []ref.Term{ref.Date(1600086400)}}, Body: []ref.Pred{{Name: "has_access", Terms: []ref.Term{v("x")}}}},
+			}}
+		p.Ops = []vm.Op{{K: "dl", Blk: &b, Lim: lim, Flags: []string{"rerun"}}}
+		// the order of the schedule on which the defect was first seen (thorough C05, seed 1, run 606699)
+		p.Tape = []uint32{721994841, 3526896035, 2363225048, 2543156589, 515407842, 2841677228, 3105562348, 235036654, 2443156266, 746185219, 2250312754, 552719193,
+			1872243323, 1049833442, 1234179806, 1528527159, 1340582283, 3861043633, 13354176, 2528516870, 4227179889, 3615360421, 1632197827, 3247003963, 326642842,
+			2581025849, 1191566355, 598686735, 2784819439, 1912068829, 2136956666, 2565351601, 940148443, 825133198, 984954981}
+		return p
+	}
 	switch run % 10 {
 	case 0:
 		b = crossProduct(2 + run/10%3)
